@@ -388,9 +388,9 @@ def spec_c05(tier, seed):
                     parts.append({'s1': s1, 'v1': v1, 'moments': 2, 'third': 1, 'lenhdr': False})
                     parts.append({'s1': s1, 'v1': v1, 'moments': 2, 'third': 2, 'lenhdr': True})
             else:
-                for third in (0, 1, 2):
-                    for lh in (False, True):
-                        parts.append({'s1': s1, 'v1': v1, 'moments': 3, 'third': third, 'lenhdr': lh})
+                # (thorough run #2: 168 partitions at up to 1180 s each took 91 min; one framing per third-source kind)
+                for third, lh in ((0, v1 % 2 == 0), (1, False), (2, True)):
+                    parts.append({'s1': s1, 'v1': v1, 'moments': 3, 'third': third, 'lenhdr': lh})
     return dict(
         conds=[Cond('c05_wire_order', 'c_wire_order', parts=parts, timeout=600 if q else 1800)],
         explanation='a real RSocketServer (fragment size 64) with the real sender task on a transport whose send_frame blocks '
